@@ -525,7 +525,8 @@ static std::string read_tail(const char *path, size_t n) {
     std::ifstream f(path, std::ios::binary);
     if (!f) return "";
     std::string s((std::istreambuf_iterator<char>(f)), std::istreambuf_iterator<char>());
-    if (s.size() > n) s = s.substr(s.size() - n);
+    // the head names the error, the tail holds the frames nearest to main
+    if (s.size() > n) s = s.substr(0, n / 2) + "\n...\n" + s.substr(s.size() - n / 2);
     return s;
 }
 
@@ -593,7 +594,7 @@ int main(int argc, char **argv) {
         bool clean = WIFEXITED(st) && WEXITSTATUS(st) == 0;
         if (!clean) {
             bool timeout = WIFSIGNALED(st) && WTERMSIG(st) == SIGALRM;
-            std::string tail = read_tail(errpath, 1500);
+            std::string tail = read_tail(errpath, 2400);
             Json j;
             if (jb.kind == 'W' || jb.kind == 'T') jb.mt = meshes.at(jb.mesh).type;
             job_header(j, jb.kind == 'R' ? "read" : jb.kind == 'W' ? "write" : "trip", jb);
@@ -607,7 +608,7 @@ int main(int argc, char **argv) {
             j.end_obj(); vx::emit(j);
         }
     }
-    unlink(errpath);
+    if (!getenv("VX_KEEP_ERR")) unlink(errpath);
     Json j; j.begin_obj(); j.kv("e", "end"); j.kv("jobs", (long long)njobs); j.end_obj(); vx::emit(j);
     return 0;
 }
